@@ -158,7 +158,7 @@ func firstRaceReport(stderr string) string {
 }
 
 func runSpec(p *eng.Solo, sp spec) {
-	dir := filepath.Join(eng.Root, ".scratch", sp.id)
+	dir := filepath.Join(eng.Scratch(), sp.id)
 	os.RemoveAll(dir)
 	defer os.RemoveAll(dir)
 	t0 := time.Now()
@@ -377,7 +377,7 @@ func replayOracle(id string, ti int) eng.Oracle {
 		if err := json.Unmarshal([]byte(in), &w); err != nil {
 			return eng.Bad("bad-witness", err.Error())
 		}
-		dir := filepath.Join(eng.Root, ".scratch", id+"-replay")
+		dir := filepath.Join(eng.Scratch(), id+"-replay")
 		defer os.RemoveAll(dir)
 		b, err := prepare(dir, false, ti)
 		if err != nil {
@@ -416,7 +416,7 @@ func raceReplayOracle(id string, ti int, runs int) eng.Oracle {
 		if err := json.Unmarshal([]byte(in), &w); err != nil {
 			return eng.Bad("bad-witness", err.Error())
 		}
-		dir := filepath.Join(eng.Root, ".scratch", id+"-replay")
+		dir := filepath.Join(eng.Scratch(), id+"-replay")
 		defer os.RemoveAll(dir)
 		b, err := prepare(dir, true, ti)
 		if err != nil {
